@@ -72,6 +72,16 @@ var rowsInfo = map[int]rowInfo{
 	41: {"deleted", true}, 42: {"deleted", false}, 43: {"flags", true}, 44: {"flags", false},
 }
 
+// signatures become file names in the driver: keep them free of path separators and blanks
+func clean(s string) string {
+	s = strings.ReplaceAll(s, "/", ".")
+	s = strings.ReplaceAll(s, " ", "_")
+	if len(s) > 150 {
+		s = s[:150]
+	}
+	return s
+}
+
 func candidates(fn string) []int {
 	for _, s := range sites {
 		if s.re.MatchString(fn) {
@@ -214,11 +224,11 @@ func main() {
 				run.Hist("read:" + strings.ToLower(m[1]))
 			case strings.HasPrefix(l, "NILREPLY "):
 				idx := run.Add("(CQuiet 0 0)", map[string]interface{}{"run": tag, "line": l}, false)
-				run.Violate(idx, "no request panics", "request_panicked:"+strings.TrimPrefix(l, "NILREPLY "), tag+": "+l)
+				run.Violate(idx, "no request panics", clean("request_panicked:"+strings.TrimPrefix(l, "NILREPLY ")), tag+": "+l)
 			case strings.HasPrefix(l, "ERR "):
 				idx := run.Add("(CQuiet 0 0)", map[string]interface{}{"run": tag, "line": l}, false)
 				f := strings.Fields(l)
-				run.Violate(idx, "no request fails", "request_error:"+f[1], tag+": "+l)
+				run.Violate(idx, "no request fails", clean("request_error:"+f[1]), tag+": "+l)
 			}
 		}
 		for _, rc := range parseRaces(stderr) {
@@ -233,7 +243,7 @@ func main() {
 				run.Hist("race:unlisted")
 				if !seenPairs["U"+key] {
 					seenPairs["U"+key] = true
-					run.Violate(idx, "no unsynchronised access to shared memory", "race_unlisted:"+key, tag+": data race between sites that are not rows of Conc/Lockset.v:\n"+rc.text)
+					run.Violate(idx, "no unsynchronised access to shared memory", clean("race_unlisted:"+key), tag+": data race between sites that are not rows of Conc/Lockset.v:\n"+rc.text)
 				}
 				continue
 			}
@@ -255,7 +265,7 @@ func main() {
 				tail = tail[:4000]
 			}
 			idx := run.Add("(CQuiet 0 0)", map[string]interface{}{"run": tag, "fatal": tail}, false)
-			sig := "fatal:" + strings.ReplaceAll(strings.TrimSpace(strings.TrimPrefix(line, "fatal error:")), " ", "_")
+			sig := clean("fatal:" + strings.TrimSpace(strings.TrimPrefix(line, "fatal error:")))
 			run.Violate(idx, "the server process never crashes", sig, tag+": "+tail)
 		} else if hung {
 			idx := run.Add("(CQuiet 0 0)", map[string]interface{}{"run": tag}, false)
